@@ -592,7 +592,7 @@ def case_urls(idx, rng, res):
             ('zip://' + pathname2url(zp), ZipReader, {'serves': 'from the archive\n'}),
             (pathname2url(zp), ZipReader, {'serves': 'from the archive\n'}),
             ('http://%s/a/@mib@' % hp, HttpReader, {'_url': 'http://%s:%d/a/@mib@' % (host, port or 80)}),
-            ('https://%s/b/@mib@' % hp, HttpReader, {}),
+            ('https://%s/b/@mib@' % hp, HttpReader, {'_url': 'https://%s:%d/b/@mib@' % (host, port or 443)}),
             ('ftp://%s/c/@mib@' % hp, FtpReader, {'_host': host, '_locationTemplate': '/c/@mib@', '_ssl': False}),
             ('sftp://%s/c/@mib@' % hp, FtpReader, {'_host': host, '_ssl': True}),
             ('gopher://%s/x' % hp, None, {}),
